@@ -263,6 +263,10 @@ func c15handler(c *Ctx) {
 			}
 		}
 		ts := r.Time()
+		if r.P(3) {
+			ts = time.Time{} // a hand-built record may carry the zero instant: it is the record's own time like any other
+			c.R.Add("records_with_the_zero_instant", 1)
+		}
 		msg := "h" + r.Str(gen.StrOpt{HostilePc: 30, NoESC: true, NoMarkup: true, NoCtl: f == FColor, ValidUTF8: f == FColor})
 		if f == FColor {
 			msg = "h" + r.SimpleKey("") + gen.Pick(r, []string{"", "-msg", "_x", ".y"})
